@@ -401,6 +401,7 @@ fn sweep(rep: &mut Report) {
                 continue;
             }
             total += 1;
+            crate::engine::PROGRESS.fetch_add(1, std::sync::atomic::Ordering::Relaxed);
             let r = guarded(|| {
                 node.recv_general(0, &data);
                 let a1 = node.timer(1, TimerKind::Announce);
